@@ -181,6 +181,19 @@ def templates(cfg):
         schema, fn, tags = E[nm]
         prog2 = lambda p, t, fn=fn: t >> p.mutate(y=fn(p, t)) >> p.filter(p.C.y.is_not_null()) >> p.mutate(z=p.C.y == p.C.y)  # noqa: E731
         out.append(Template(f"c03.chain.{nm}", schema, prog2, props=("C03",), tags=tags, nmax=2))
+    # integer operators on wide integers (|x| <= 2**62, tag "wide": int -> float64 conversions inside the artefacts are
+    # exact only up to 2**53, kernel.WIDE): an integer result must not pass through floating point (round 5, C03-F).
+    # Literal divisors keep the queries linear; sums / products that could leave int64 are not used.
+    wide = {
+        "floordiv_1000": lambda p, t: t.a // 1000, "floordiv_1": lambda p, t: t.a // 1, "floordiv_neg7": lambda p, t: t.a // -7,
+        "mod_1000": lambda p, t: t.a % 1000, "mod_neg3": lambda p, t: t.a % -3, "neg_abs": lambda p, t: (-t.a).abs(),
+        "divmod_identity_10": lambda p, t: (t.a // 10) * 10 + t.a % 10, "cmp": lambda p, t: t.a > t.b, "eq_lit": lambda p, t: t.a == 2**53 + 1,
+        "hmax": lambda p, t: p.max(t.a, t.b), "clip": lambda p, t: t.a.clip(-(2**60), 2**60), "fill": lambda p, t: t.a.fill_null(2**61 + 1),
+        "when": lambda p, t: p.when(t.a >= t.b).then(t.a).otherwise(t.b), "round0": lambda p, t: t.a.round(0),
+    }  # fmt: skip
+    for nm, fn in wide.items():
+        out.append(Template(f"c03.wide.{nm}", S_I, lambda p, t, fn=fn: t >> p.mutate(y=fn(p, t)), props=("C03",), tags=("wide",), nmax=2, int_bound=2**62))
+    out.append(Template("c03.wide.agg", S_I, lambda p, t: t >> p.summarize(m=t.a.max(), n=t.a.min(), c=t.a.count()), props=("C03",), tags=("wide",), nmax=2, int_bound=2**62))
     if cfg.tier != "quick":
         # thorough: every binary operator nested in every other (one level), with a literal operand
         # in either position, on nullable int / bool columns
